@@ -4,6 +4,7 @@ open CGV CGV.Oracle
 /-! Line-protocol driver for C13 (see harness/c13/main.go for the op grammar). Stateful: `reset` op. -/
 
 structure D where
+  live : Bool := false          -- false until the first `reset`: ops on the oracle are `bad-op`, as in the harness
   s : St := {}
   enabled : Bool := true
   ids : List Nat := []          -- client threads in start order
@@ -171,12 +172,16 @@ def doGet (d : D) (t : String) : D × String :=
       (record d1, "pending")
   | none => (d, "bad-op")
 
-def step13 (d : D) (line : String) : D × String :=
+def needsOracle (op : String) : Bool :=
+  ["get", "aget", "val", "issue", "arrive", "low", "check", "isexp", "until", "p-exp"].contains op
+
+def step13' (d : D) (line : String) : D × String :=
+  if !d.live && needsOracle ((words line).headD "") then (d, "bad-op") else
   match words line with
   | ["reset", mode, pd0, en] =>
     match pd0.toNat?, (mode == "empty" || mode == "seeded") with
     | some pd0, true =>
-      let d0 : D := { s := init pd0, enabled := en == "1" }
+      let d0 : D := { live := true, s := init pd0, enabled := en == "1" }
       if mode == "seeded" then
         -- NewPdOracle performs one GetTimestamp, answered at once with pd0 + 1
         let s1 := [Act.startGet hiddenId, .run hiddenId 0, .pdIssue hiddenId 0, .run hiddenId 0].foldl step d0.s
@@ -277,5 +282,13 @@ def step13 (d : D) (line : String) : D × String :=
     | some n, some r, some sd => if n = 0 || n > 64 || r > 1000 then (d, "bad-op") else (d, stress n r sd)
     | _, _, _ => (d, "bad-op")
   | _ => (d, "bad-op")
+
+/-- as in the harness: after every op that lets the oracle move the property oracle is evaluated on the whole history -/
+def step13 (d : D) (line : String) : D × String :=
+  let (d', out) := step13' d line
+  if ["get", "aget", "val", "issue", "arrive"].contains ((words line).headD "") && d'.live && out != "bad-op" then
+    let c := checkAll d'
+    if c != "ok" then (d', c ++ " | " ++ out) else (d', out)
+  else (d', out)
 
 def main : IO Unit := runDriver ({} : D) step13
